@@ -511,6 +511,10 @@ def run_stream(ctx, corr, exe, drv, gens, stream, site):
             # `q` the homogenised problem the solver inside `Adj` is given (`adj_driver_input_is_instance`)
             corr.count("adj_info_agreement_checks", sum(1 for x in b if x.startswith("info ") and not x.startswith("info env")))
             corr.count("adj_info_refused", sum(1 for x in b if x.startswith("info-does-not-describe")))
+            # round 13: `envinfo` (ordering / size / defect of the envelope solver inside Adj: `Info.agrees p`) and `info env`
+            # (defect = `defectP p`) are agreement-checked too
+            corr.count("adj_envinfo_agreement_checks", sum(1 for x in b if x.startswith(("envinfo ", "info env "))))
+            corr.count("adj_envinfo_refused", sum(1 for x in b if x.startswith("envinfo-does-not-describe")))
         corr.count(stream + "_state_lines", sum(1 for x in b if x.startswith(("st ", "adj "))))
         corr.count(stream + "_numeric_lines", sum(1 for x in b if x.startswith(("vec", "val", "int", "flag"))))
         if bad is not None:
@@ -861,6 +865,19 @@ def _gkf(net, alg):
     return net["corpus"] if "corpus" in net else gen_net.to_gkf(net, algorithm=alg)
 
 
+def with_denote(qs):
+    """round 13: `denote` (numeric execution of the network-level denotation) after the first `set_algorithm` + question,
+    and at the end of every history — placed without consuming random numbers"""
+    out, done = [], False
+    for i, q in enumerate(qs):
+        out.append(q)
+        if not done and i > 0 and qs[i - 1].startswith("set_algorithm"):
+            out.append("denote")
+            done = True
+    out.append("denote")
+    return out
+
+
 def net_interleave(qs):
     lines = []
     for q in qs:
@@ -880,6 +897,7 @@ def run_net_cascade(ctx, corr, n=None, maxlen=None):
     work.mkdir(exist_ok=True)
     try:
         gens = [gen_net_history(ctx.rng, maxlen, work, i) for i in range(n)]
+        gens = [(net, alg, ops, with_denote(qs)) for (net, alg, ops, qs) in gens]
         cases = [ops + net_interleave(qs) for (_, _, ops, qs) in gens]
         # recorded histories of confirmed findings (corpus/C04/net-*.ops; `load` is relative to the corpus)
         cdir = ctx.verif / "corpus" / "C04"
@@ -893,11 +911,16 @@ def run_net_cascade(ctx, corr, n=None, maxlen=None):
         shutil.rmtree(work, ignore_errors=True)
     # the model needs one input fact per `remove_huge`: whether a term was outlying (printed by the harness)
     mcases = []
-    for c, o in zip(cases, impl):
+    for ci, (c, o) in enumerate(zip(cases, impl)):
+        # round 13: the model is told the algorithm the file selects (class of the first solver object)
+        alg0 = gens[ci][1] if gens[ci][1] != "corpus" else _alg_of(c)
         mc = []
         for l, ol in zip(c, o + [""] * len(c)):
-            mc.append(("remove_huge " + ol.split()[1]) if (l == "remove_huge" and ol.startswith("huge ")) else
-                      ("load -" if l.startswith("load ") else
+            mc.append(("denote " + ol.split(" || ", 1)[1]) if (l == "denote" and ol.startswith("den ") and " || " in ol) else
+                      "denote !" if (l == "denote" and ol.startswith("throw matvec")) else
+                      "denote !local" if (l == "denote" and ol.startswith("throw local")) else
+                      ("remove_huge " + ol.split()[1]) if (l == "remove_huge" and ol.startswith("huge ")) else
+                      (("load - " + alg0) if l.startswith("load ") else
                        "is_adjusted" if (l.startswith("raw ") and ol == "undefined") else      # harness did not call it
                        (l + " !") if ((l in ENSURING or l in FREE_Q or l == "refine" or l.startswith("raw ")) and ol.startswith("throw matvec")) else
                        (l + " !local") if ((l in ENSURING or l in FREE_Q or l == "refine" or l.startswith("raw ")) and ol.startswith("throw local")) else l))
@@ -946,6 +969,22 @@ def run_net_cascade(ctx, corr, n=None, maxlen=None):
                     lo = max(0, k - 4)
                     corr.disagree("netstate", c, [f"{c[j]} -> {a[j]}" for j in range(lo, k + 1)],
                                   [f"{c[j]} -> {b[j]}" for j in range(lo, k + 1)], f"flags differ after op #{k - 1} '{c[k - 1]}'")
+            elif w == "denote":
+                # round 13: the value the model's denotation gives the answers of solve() / residuals() / trans_VWV() —
+                # `netSolve alg np` on the `projectEquations` output for the state the REAL network is in, `alg` from the
+                # class the MACHINE holds — against the numbers the real, historied object returned
+                if a[k].startswith("den ") and not outside:
+                    got = a[k].split(" || ", 1)[0]
+                    corr.count("net_denote_checks")
+                    corr.maxstat("net_denote_unknowns", int(got.split()[3]) if len(got.split()) > 3 else 0)
+                    if not lines_equal(got, b[k], rtol=1e-6, atol=1e-7):
+                        corr.disagree("netdenote", c, [f"{c[j]} -> {a[j].split(' || ')[0]}" for j in range(max(0, k - 4), k + 1)],
+                                      [f"{c[j]} -> {b[j]}" for j in range(max(0, k - 4), k + 1)],
+                                      f"denotation (netSolve of projectEquations at Float) differs from the real answers at op #{k}")
+                elif a[k].startswith("den "):
+                    corr.count("net_denote_after_solver_throw_not_compared")
+                else:
+                    corr.count("net_denote_thrown")
             elif w == "set_algorithm":
                 # round 9: `ok <class>` — model: class `Gen.setAlg` (regenerated) selects for the name; implementation: dynamic
                 # type of the new `least_squares` through the probe
